@@ -100,6 +100,13 @@ theorem server_to_client_stream (ks : Bytes → Bytes → Nat → UInt8) (sha : 
   rw [← hs.2] at hwire
   exact read_write ks ck.decrypt writes chunks hwire
 
+/-- **A read that ends with an error still decrypts** (tie: `Obfuscated2.Read` applies the keystream
+to the `n` bytes before looking at the error — fact `readDecryptsWithError`): bytes that the
+connection delivers together with an error such as `io.EOF` — which `io.ReadFull` hands on as data —
+are plaintext, so the stream theorems hold for such connections too. -/
+theorem read_decrypts_with_error (X : Cipher) (errLast : Bool) (s : Stream) (chunks : List Bytes) :
+    readAllE X errLast s chunks = readAll X s chunks := readAllE_eq X errLast chunks s
+
 /-- **Reserved prefixes.**  Whatever the random source delivers, a header that `Handshake` sends
 never starts with 0xef, never has one of the reserved first words, never has a zero second word. -/
 theorem header_prefix_ok (ks : Bytes → Bytes → Nat → UInt8) (sha : Bytes → Bytes)
